@@ -78,6 +78,12 @@ def report_crash(run, m, line, meta, info, layer):
     what, rc, err = info
     site = stack_site(err)
     summ = re.findall(r"(SUMMARY: [^\n]*|runtime error: [^\n]*)", err or "")
+    # asn1c emits check_permitted_alphabet_N for a UniversalString with ANY constraint (SIZE as well as FROM)
+    if site and site[0].startswith("check_permitted_alphabet_") and any("left shift of" in x and "by 24 places" in x and "type 'int'" in x for x in summ) \
+            and re.search(r"UniversalString\s*\(", m["text"]):
+        run.known_finding("C04-generated-alphabet-shift", line)
+        run.count("known_C04-generated-alphabet-shift")
+        return
     how = "did not terminate within its CPU budget (hang)" if rc == 99 else "died (rc=%s, %s): sanitizer report, abort or signal" % (rc, what)
     run.violation("crash:%s:%s" % (layer, (site[0] if site else what)),
                   {"what": "decoder process %s on a %s input" % (how, meta["kind"]),
@@ -504,7 +510,7 @@ def wide_layer(run, rng, tier):
 
 def ext_budgets(tier):
     if tier == "quick":
-        return {"prefix_all": 150, "wraps_extra": 2, "eoc": 3, "framecut": 10, "p2c": 2, "battery_readers": 2, "generic": 6}
+        return {"prefix_all": 600, "wraps_extra": 5, "eoc": 3, "framecut": 10, "p2c": 2, "battery_readers": 2, "generic": 6}
     return {"prefix_all": 400, "wraps_extra": 5, "eoc": 8, "framecut": 40, "p2c": 4, "battery_readers": 5, "generic": 12}
 
 
